@@ -9,6 +9,7 @@
 //                     verified on the reference side.
 // Exact comparisons use ==, so -0 == +0.
 #include "kit/num.h"
+#include "kit/prelude.h"
 #include <dsplib.h>
 
 using namespace vk;
